@@ -183,6 +183,8 @@ def _labels(c, exp):
                 program_labels(ins['p'], ins['k'])
             if ins.get('local_defs'):
                 labels.append('def-program-in:' + ph)
+            if ins.get('shared_symbol'):
+                labels.append('program-symbol-used-twice:act+' + ph)
     for e in exp['inv']:
         for f in _argv_features(e['argv'][0]):
             feats.add('argv:' + f)
@@ -332,6 +334,7 @@ def check(case) -> Verdict:
         for rec in records[pid]:
             got = {'argv': rec['argv'], 'stdin': rec['stdin'], 'cwd': rec['cwd']}
             match = None
+            match_rank = None
             near = None
             for i, e in enumerate(entries):
                 alts = [[subst(a) for a in alt] for alt in e['argv']]
@@ -343,9 +346,15 @@ def check(case) -> Verdict:
                 cwd_ok = os.path.realpath(got['cwd']) == os.path.realpath(subst(e['cwd']))
                 stdin_ok = got['stdin'] == subst_stdin(e, subst)
                 ok = argv_ok and cwd_ok and stdin_ok
-                if ok and (e['count'] != '1' or used[i] == 0):
-                    match = i
-                    break
+                if ok:
+                    # expected invocations that look the same are interchangeable: one that must happen and is not
+                    # matched yet is preferred, then an optional one, then one that may happen more than once
+                    rank = (0 if used[i] == 0 and e['count'] in ('1', '1+') else 1 if used[i] == 0 else
+                            2 if e['count'] != '1' else None)
+                    if rank is not None:
+                        if match is None or rank < match_rank:
+                            match, match_rank = i, rank
+                        continue
                 score = (argv_ok, cwd_ok, stdin_ok)
                 if near is None or sum(score) > sum(near[1]):
                     near = (i, score, alts)
